@@ -125,14 +125,14 @@ func (co *Committed) Property() string {
 	for _, a := range co.Accts {
 		if len(a.Acc.StorageRoot) > 0 {
 			if r := LeavesRoot(a.SLeaves); !bytes.Equal(r[:], a.Acc.StorageRoot) {
-				return fmt.Sprintf("storage root != reference root of content: account %s has %x, content hashes to %x", a.Key, a.Acc.StorageRoot, r)
+				return fmt.Sprintf("storage root != reference root of content: account %s has %x, content hashes to %x", a.Key, a.Acc.StorageRoot, r[:])
 			}
 		}
 		v, _ := rlp.EncodeToBytes(&a.Acc)
 		kvs = append(kvs, KV{Key: ParsePath(a.Key), Val: v})
 	}
 	if r := RefRoot(kvs); r != co.Root {
-		return fmt.Sprintf("state root != reference root of content: %x vs %x", co.Root, r)
+		return fmt.Sprintf("state root != reference root of content: %x vs %x", co.Root[:], r[:])
 	}
 	return ""
 }
